@@ -364,8 +364,8 @@ def check(run, replay=None):
                     ("fork." if t["cfg"]["forked"] else "pipe.") + t["cfg"]["kind"], t.get("origin"), hw + 1,
                     cmd_str(t["wins"][hw]["cmd"]) if hw < len(t["wins"]) else "-", json.dumps(t["wins"][hw]["done"])[:200] if hw < len(t["wins"]) else "", json.dumps(t["wins"][hw]["q"]) if hw < len(t["wins"]) else ""))
             log("phase: TRACE-I %d stage traces, %d accepted, %d rejected" % (len(sample), acc, len(rej)))
-        if pid == "C09" and th:
-            race_pass(run, scheds, d, rng)
+        if pid == "C09":
+            race_pass(run, scheds, d, rng, th)
         kinds = collections.Counter((t["cfg"]["kind"], t.get("origin", "")) for t in traces)
         run.notes["executions_by_kind_and_origin"] = {"%s/%s" % k: v for k, v in sorted(kinds.items())}
         run.notes["windows_judged"] = sum(len(t["wins"]) for t in traces)
@@ -618,18 +618,23 @@ def report(run, pid, scheds, traces, viols):
     run.notes["traces_with_failing_predicate"] = len(per_trace)
 
 
-def race_pass(run, scheds, d, rng):
-    """C09 'without data races': the same schedules under the race detector with several GOMAXPROCS."""
+def race_pass(run, scheds, d, rng, th):
+    """C09 'without data races': the same schedules under the race detector with several GOMAXPROCS
+    (quick: a sample of 300 schedules, preferring ungated ones, with 4 procs; thorough: 1500 with 1, 2 and 16)."""
     binr = pipe_run.build(race=True)
-    sub = rng.sample(scheds, min(len(scheds), 1500))
-    for procs in (1, 2, 16):
+    if th:
+        sub = rng.sample(scheds, min(len(scheds), 1500))
+    else:
+        ung = [s for s in scheds if not s["cfg"].get("gate")]
+        sub = rng.sample(ung, min(len(ung), 200)) + rng.sample(scheds, min(len(scheds), 100))
+    for procs in ((1, 2, 16) if th else (4,)):
         traces = pipe_run.run_schedules(binr, sub, d, tag="race%d" % procs, env={"GOMAXPROCS": procs, "GORACE": "halt_on_error=1"})
         run.traces += len(traces)
         for t in traces:
             if t.get("race"):
                 run.violation({"stage": "fork." + t["cfg"]["kind"], "pred": "DataRace"}, "data race reported by the race detector: " + t["race"][:300],
                               {"sched": t.get("sched"), "race": t["race"]})
-    run.notes["race_detector_runs"] = 3 * len(sub)
+    run.notes["race_detector_runs"] = (3 if th else 1) * len(sub)
 
 
 def do_replay(run, binp, path, d):
